@@ -4,13 +4,17 @@ M6 — policy directory monitor + policy-file parser.
 Transcribed from the code as it is:
   kmip/services/server/monitor.py
     get_json_files                 (l.25-30)    → `sortFiles`
-    initialize_tracking_structures (l.150-158)  → `MonState.init`
-    scan_policies                  (l.78-133)   → `scanE` / `scan`
-    disassociate_policy_and_file   (l.160-163)  → `disassociate`
-    restore_or_delete_policy       (l.165-175)  → `restoreOrDelete`
+    initialize_tracking_structures → `MonState.init`
+    scan_policies                  (l.78-139)   → `scanE` / `scan`
+    disassociate_policy_and_file   → `disassociate`
+    restore_or_delete_policy       → `restoreOrDelete`
   kmip/core/policy.py
-    parse_policy                   (l.22-59)    → `parsePolicy`
-    read_policy_from_file          (l.62-111)   → `readPolicy`
+    parse_policy                   → `parsePolicy`
+    read_policy_from_file          → `readPolicy`
+  as of /repo 72eead1 (fix 62efd90: a reloaded file is disassociated from every cached
+  policy it no longer defines; fix 72eead1: wrongly typed nodes and mixed sections raise
+  ValueError).  Line numbers in the comments below: monitor.py as of 62efd90; policy.py as it
+  was before 72eead1 (that fix only inserted isinstance checks in front of the loops).
 
 Conventions
   * A Python dict is an insertion-ordered association list (`dget`/`dset`/`dpop`):
@@ -168,12 +172,15 @@ def loadBody (R : List Name) (f : File) (s : MonState) (d : Name × PolId) : Exc
     | none =>
       .ok { s with cache := dset s.cache p [], store := dset s.store p d.2, map := dset s.map p f }
 
-/-- l.106-133: a successful `read_policy_from_file` returned `defs` -/
+/-- l.106-139: a successful `read_policy_from_file` returned `defs` -/
 def loadFile (R : List Name) (s : MonState) (f : File) (defs : List (Name × PolId)) : Except (MonState × Exn) MonState := do
   let oldP := ownedBy s f                                           -- l.99 (timestamps are not read below)
   let s1 ← defs.foldlM (loadBody R f) s
+  -- l.135-137 (fix 62efd90): `for p in list(self.policy_cache.keys()): if p not in new_p: disassociate(p, f)`
+  let stale := (dkeys s1.cache).filter (fun p => !(dkeys defs).contains p)
+  let s2 := stale.foldl (fun s p => disassociate s p f) s1
   let gone := oldP.filter (fun p => !(dkeys defs).contains p)       -- `set(old_p) - set(new_p.keys())`
-  pure (gone.foldl (fun s p => restoreOrDelete (disassociate s p f) p) s1)
+  pure (gone.foldl restoreOrDelete s2)                              -- l.138-139
 
 /-- l.95-133: body of `for f in sorted(self.file_timestamps.keys())` -/
 def visit (R : List Name) (snap : DirSnapshot) (s : MonState) (f : File) : Except (MonState × Exn) MonState :=
@@ -249,9 +256,10 @@ def permissionNames : List String := ["ALLOW_ALL", "ALLOW_OWNER", "DISALLOW_ALL"
 inductive PErr where
   /-- ValueError -/
   | reject
-  /-- AttributeError: a method of dict called on a non-dict node -/
+  /-- AttributeError: a method of dict called on a non-dict node (no longer raised since fix 72eead1;
+      kept so that "the parser only raises ValueError" is a theorem, `read_policy_total`, not a typing fact) -/
   | attributeError
-  /-- KeyError: `invalid_sections.pop()` on an empty set (l.108) -/
+  /-- KeyError: `invalid_sections.pop()` on an empty set (no longer raised since fix 72eead1) -/
   | keyError
   deriving DecidableEq, Repr, Inhabited
 
@@ -287,12 +295,12 @@ def parseTypes (T : NameTables) : List (String × J) → Except PErr ObjTbl
       | .ok tbl =>
         if !T.objectTypes.contains ot then .error .reject      -- `enums.ObjectType[object_type]`, after the inner loop
         else (parseTypes T r).map (fun rest => (ot, tbl) :: rest)
-    | _ => .error .attributeError                               -- `six.iteritems(operation_policies)`
+    | _ => .error .reject                                       -- `not isinstance(operation_policies, dict)`: ValueError
 
 /-- `parse_policy(policy)` -/
 def parsePolicy (T : NameTables) : J → Except PErr ObjTbl
   | .obj kvs => parseTypes T kvs
-  | _ => .error .attributeError                                 -- `six.iteritems(policy)`
+  | _ => .error .reject                                         -- `not isinstance(policy, dict)`: ValueError
 
 /-- l.94-97: the loop over `(group_name, group_policy)` -/
 def parseGroups (T : NameTables) : List (String × J) → Except PErr (List (String × ObjTbl))
@@ -315,7 +323,7 @@ def parseGroupsSection (T : NameTables) (body : List (String × J)) : Except PEr
     if v.truthy then
       match v with
       | .obj gkvs => (parseGroups T gkvs).map some
-      | _ => .error .attributeError                             -- `six.iteritems(group_policies)`
+      | _ => .error .reject                                     -- `not isinstance(group_policies, dict)`: ValueError
     else .ok none
   | none => .ok none
 
@@ -341,9 +349,9 @@ def parseEntry (T : NameTables) (body : J) : Except PErr (Option PolicyVal) :=
         (parseTypes T kvs).map (fun t => some ⟨some t, none⟩)
       else
         let invalid := sections.filter (fun k => !["groups", "preset"].contains k && !T.objectTypes.contains k)
-        if invalid.isEmpty then .error .keyError                -- `.pop()` from an empty set
-        else .error .reject
-  | _ => .error .attributeError                                 -- `object_policy.keys()`
+        if invalid.isEmpty then .error .reject                  -- "mixes policy sections with object types"
+        else .error .reject                                     -- "contains an invalid section"
+  | _ => .error .reject                                         -- `not isinstance(object_policy, dict)`: ValueError
 
 /-- l.78-111: the loop over `policy_blob.items()` -/
 def parseEntries (T : NameTables) : List (String × J) → Except PErr (List (String × PolicyVal))
@@ -358,6 +366,6 @@ def parseEntries (T : NameTables) : List (String × J) → Except PErr (List (St
 def readPolicy (T : NameTables) : Option J → Except PErr (List (String × PolicyVal))
   | none => .error .reject
   | some (.obj kvs) => parseEntries T kvs
-  | some _ => .error .attributeError                            -- `policy_blob.items()`
+  | some _ => .error .reject                                    -- `not isinstance(policy_blob, dict)`: ValueError
 
 end Kmip.Mon
